@@ -33,6 +33,7 @@ pub mod c23;
 pub mod c28;
 pub mod bookgen;
 pub mod c24;
+pub mod c24cell;
 pub mod c25;
 pub mod xmltree;
 
